@@ -59,7 +59,10 @@ RULE = ("case = (generated program: plain function or DBC chain of 1..3 classes 
         "class; one truth assignment out of ALL 2^n (n<=6; sampled above)). Oracle: body entered iff DNF(truth); when "
         "rejected: no capture/postcondition event and the error of a falsy condition of the call. non-trivial = a "
         "call with >=2 precondition conditions of which at least one is falsy, or >=2 groups; distinct = "
-        "hash(program, ops, assignment).")
+        "hash(program, ops, assignment). Plus enumerated matrices: call shapes; the two-base matrix of C04; a recursion "
+        "matrix (the body calls the callable again directly / through another function / on another or the same "
+        "instance, depth 4 x forbidden-argument subsets x with/without postcondition x sync/async): each nested call's "
+        "body runs iff its own precondition holds.")
 ASSUMPTIONS = ["which falsy condition's error surfaces is C16's business; C01 accepts the error of any falsy one",
                "operations rejected by a falsy invariant before the call are not judged here (C03)"]
 
@@ -133,11 +136,106 @@ def directed_shapes(ctx):
                              "call was %s (bodies entered with x = %r)" % (label, want, got, entered))
 
 
+def recursion_matrix(ctx):
+    """A callable with a precondition whose BODY calls it again (directly, through another function, on another instance):
+    every such call is a call - its body runs iff its precondition holds. Enumerated: depth 4 x which argument values are
+    forbidden x with/without a postcondition x sync/async x route."""
+    import itertools
+    import icontract
+    from vf.progmodel.run import drive
+
+    for is_async, with_post, route in itertools.product((False, True), (False, True), ("direct", "mutual", "other-instance", "same-instance")):
+        for bad in itertools.chain.from_iterable(itertools.combinations(range(4), r) for r in range(0, 3)):
+            log = []
+
+            def ok(x):
+                log.append(("pre", x))
+                return x not in bad
+
+            def call(fn, *a):
+                r = fn(*a)
+                return drive(r) if is_async else r
+
+            def descend(fn, x, *a):
+                if x > 0:
+                    try:
+                        call(fn, *a)
+                    except icontract.ViolationError:
+                        log.append(("rejected", x - 1))
+
+            post = icontract.ensure(lambda result: True) if with_post else (lambda f: f)
+            if route in ("direct", "mutual"):
+                if is_async:
+                    @icontract.require(ok)
+                    @post
+                    async def f(x):
+                        log.append(("body", x))
+                        descend(g if route == "mutual" else f, x, x - 1)
+
+                    async def g(x):
+                        return await f(x)
+                else:
+                    @icontract.require(ok)
+                    @post
+                    def f(x):
+                        log.append(("body", x))
+                        descend(g if route == "mutual" else f, x, x - 1)
+
+                    def g(x):
+                        return f(x)
+                top = lambda: call(f, 3)  # noqa
+            else:
+                if is_async:
+                    class K:
+                        def __init__(self, child):
+                            self.child = child
+
+                        @icontract.require(lambda x: ok(x))
+                        @post
+                        async def m(self, x):
+                            log.append(("body", x))
+                            descend((self.child or self).m, x, x - 1)
+                else:
+                    class K:
+                        def __init__(self, child):
+                            self.child = child
+
+                        @icontract.require(lambda x: ok(x))
+                        @post
+                        def m(self, x):
+                            log.append(("body", x))
+                            descend((self.child or self).m, x, x - 1)
+                node = K(K(K(K(None)))) if route == "other-instance" else K(None)
+                top = lambda: call(node.m, 3)  # noqa
+            try:
+                top()
+            except icontract.ViolationError:
+                log.append(("rejected", 3))
+            want = []
+            for x in (3, 2, 1, 0):
+                want.append(("pre", x))
+                if x in bad:
+                    want.append(("rejected", x))
+                    break
+                want.append(("body", x))
+            label = "%s %s recursion%s, forbidden arguments %r" % ("async" if is_async else "sync", route,
+                                                                  " with a postcondition" if with_post else "", list(bad))
+            ctx.case(["recursion", is_async, with_post, route, bad], bool(bad) and 3 not in bad,
+                     sample={"directed": label, "evaluated": [list(e) for e in log]})
+            ctx.count("directed:recursion-matrix")
+            # a lambda condition that fails is evaluated once more for the message: compare without repeated entries
+            got = [e for i, e in enumerate(log) if i == 0 or e != log[i - 1]]
+            if got != want:
+                ctx.fail("recursion|%s|%s|%s" % ("async" if is_async else "sync", route, "post" if with_post else "nopost"),
+                         {"directed": "recursion"}, "%s: evaluated %r, expected %r" % (label, got, want))
+
+
 def directed(ctx, only=None):
     """The enumerated two-base matrix of C04 (who provides the member with/without preconditions, in both orders),
     judged with C01's projection; plus the directed call shapes."""
     from vf.props import c04
 
     directed_shapes(ctx)
+    recursion_matrix(ctx)
     for case in c04.multi_base_matrix():
         D.run_one(ctx, case, JUDGE, nontrivial=nontrivial)
